@@ -516,7 +516,11 @@ impl AsyncGenerator {
         generator.borrow_mut().data_mut().context = Some(generator_context);
 
         // 8. Assert: result is never an abrupt completion.
-        assert!(!result.is_throw_completion());
+        // NOTE: The only exception is an engine error (e.g. a runtime limit), which is not a
+        //       JavaScript completion and is reported to the caller.
+        if let CompletionRecord::Throw(err) = result {
+            return Err(err);
+        }
 
         // 9. Assert: When we return here, genContext has already been removed from the execution context stack and
         //    callerContext is the currently running execution context.
